@@ -83,6 +83,7 @@ type simCfg struct {
 	Keep          map[string]bool // events whose pointer arguments are not havocked
 	UniqueMake    bool
 	NormSubslice  bool
+	PreciseExits  bool
 	NoLoopSamples bool // only function exits are sampled
 	Model         func(c *simClient, x *Exec, st *State, fr *Frame, site ssa.CallInstruction, name string, callee *ssa.Function, fnTerm *Term, args []*Term) (bool, []CallOut)
 	OnStoreHook   func(c *simClient, x *Exec, st *State, fr *Frame, pos token.Pos, addr, val, old *Term)
@@ -218,6 +219,7 @@ func runSim(p *Program, fn *ssa.Function, cfg *simCfg, args []*Term) (*simClient
 	x := newExec(p, c)
 	x.UniqueMake = cfg.UniqueMake
 	x.NormSubslice = cfg.NormSubslice
+	x.PreciseExits = cfg.PreciseExits
 	st := newState(&simGhost{flags: map[string]*Term{}})
 	if args == nil {
 		for _, pa := range fn.Params {
